@@ -202,6 +202,29 @@ scenarios:
 `
 
 
+// c19listScenario: a list captured from one answer is indexed by the next step's preprocessor
+// ([0], [next], [rand], [last]); whatever list the target returns - also an empty one - the run goes on.
+func c19listScenario(index string) string {
+	return `requests:
+  - name: l
+    method: GET
+    uri: /l
+    postprocessors:
+      - type: var/jsonpath
+        mapping:
+          items: $.list
+  - name: u
+    method: GET
+    uri: '/u/{{.request.u.preprocessor.it}}'
+    preprocessor:
+      mapping:
+        it: request.l.postprocessor.items[` + index + `]
+scenarios:
+  - name: s
+    requests: [l, u]
+`
+}
+
 type c19run struct {
 	cell    C19Cell
 	res     EngRes
@@ -215,7 +238,10 @@ func (r *c19run) scenario(x *vs.X) func(end, msg string) error {
 	c := r.cell
 	r.res, r.n, r.sent, r.samples = EngRes{}, 0, nil, nil
 	var conf map[string]any
-	if c.Gun == "scenario" {
+	if strings.HasPrefix(c.Gun, "scenario-list-") {
+		_ = afero.WriteFile(memfs, "/c19l.yaml", []byte(c19listScenario(strings.TrimPrefix(c.Gun, "scenario-list-"))), 0o644)
+		conf = map[string]any{"type": "http/scenario", "file": "/c19l.yaml", "limit": c.Shots}
+	} else if c.Gun == "scenario" {
 		_ = afero.WriteFile(memfs, "/c19.yaml", []byte(c19scenario), 0o644)
 		conf = map[string]any{"type": "http/scenario", "file": "/c19.yaml", "limit": c.Shots}
 	} else {
@@ -246,7 +272,7 @@ func (r *c19run) scenario(x *vs.X) func(end, msg string) error {
 		return &c19client{cell: c, n: &r.n, sent: &r.sent}
 	}
 	newGun := func() (core.Gun, error) {
-		if c.Gun == "scenario" {
+		if strings.HasPrefix(c.Gun, "scenario") {
 			g := httpscenario.ZvNewGunLog(cc, gconf, answLog)
 			return httpscenario.WrapGun(g), nil
 		}
@@ -290,6 +316,22 @@ func (r *c19run) check(end, msg string) error {
 	}
 	if r.res.Err != nil {
 		return fmt.Errorf("ABORTED: the run ended with %q after %d requests: a response must not abort the run", r.res.Err, len(r.sent))
+	}
+	if strings.HasPrefix(c.Gun, "scenario-list-") {
+		// every shot starts with /l; the step that cannot pick its item fails (one sample, nothing sent), the next shot is made
+		ls := 0
+		for _, p := range r.sent {
+			if p == "/l" {
+				ls++
+			}
+		}
+		if ls != c.Shots {
+			return fmt.Errorf("STOPPED: %d of %d shots were made (requests %v): the instance did not go on with the next ammo", ls, c.Shots, r.sent)
+		}
+		if len(r.samples) < len(r.sent) || len(r.samples) > 2*c.Shots {
+			return fmt.Errorf("SAMPLES: %d requests sent in %d shots of a two-step scenario, %d samples reported", len(r.sent), c.Shots, len(r.samples))
+		}
+		return nil
 	}
 	shots := 0
 	if c.Gun == "scenario" {
@@ -361,6 +403,17 @@ func c19cells(thorough bool) []C19Cell {
 		return 1
 	}
 	shots := 3
+	// a list captured from an answer and indexed by the next step: every way of indexing x every shape of the list
+	for _, idx := range []string{"0", "1", "-1", "5", "-5", "-2", "next", "rand", "last"} {
+		out = append(out, C19Cell{Gun: "scenario-list-" + idx, LongDef: true, Shots: shots})
+		for pos := 1; pos <= 3; pos += 2 {
+			for _, body := range []string{`{"list": []}`, `{"list": null}`, `{"list": "str"}`, `{"list": {}}`, `{"list": [[]]}`, `{"list": [null]}`, `{"list": 7}`, `{}`, `[]`} {
+				a := d
+				a.Body = body
+				out = append(out, C19Cell{Gun: "scenario-list-" + idx, LongDef: true, Shots: shots, Devs: map[int]R19{pos: a}})
+			}
+		}
+	}
 	// every single deviation first (this is the quick tier), pairs afterwards: a budget cap in thorough
 	// then cuts into the pairs, never into what quick covers
 	for _, gun := range guns {
